@@ -3,6 +3,8 @@
 import z3
 from pyvc.vc import *  # noqa
 from pyvc.native import NativeHarness as NH
+from pyvc.symexec import RaiseEx
+from pyvc.values import ExcVal
 
 F = 'flax/jax_utils.py'
 A = 'flax/core/axes_scan.py'
@@ -171,7 +173,11 @@ DevItem = opaque('DevItem', is_str=False)
 Devices = opaque('Devices', is_str=False, nullable=True)
 put = UFn('put', [Item], DevItem, 'jax.tree_util.tree_map(_prefetch, data): per-item device transfer, uninterpreted')
 
-IterSrc = Union('IterSrc', [Ctor('IterSrc', [('src', SeqOf(Item)), ('pos', INT)], pytypes=('Iterator',))])
+# a source iterator: items src[pos:]; when asked for item number `fail` (if fail <= len(src)) it raises instead
+# (fail == len(src): it raises where it would have stopped; fail > len(src): it never raises)
+IterSrc = Union('IterSrc', [Ctor('IterSrc', [('src', SeqOf(Item)), ('pos', INT), ('fail', INT)], pytypes=('Iterator',))])
+SourceErr = opaque('SourceError', is_str=False, nullable=True)
+SourceErr.exc_tag = 'SourceError'
 
 
 def _islice(ex, a, kw):
@@ -181,13 +187,19 @@ def _islice(ex, a, kw):
   cur = ex.deref(box)
   n = ex.coerce(a[1], INT).t
   U = cur.sort
-  src, pos = U.acc('IterSrc', 'src', cur.t), U.acc('IterSrc', 'pos', cur.t)
+  src, pos, fail = U.acc('IterSrc', 'src', cur.t), U.acc('IterSrc', 'pos', cur.t), U.acc('IterSrc', 'fail', cur.t)
   S = SeqOf(Item)
-  rem = S.len(src) - pos
+  stop = z3.If(fail <= S.len(src), fail, S.len(src))
+  rem = stop - pos
   ex.oblige(n >= 0, 'safety:islice-nonneg')
   m = z3.If(n < rem, n, rem)
-  ex.mutate(box, SV(U, U.mk('IterSrc', src, pos + m)))
-  return IterView(m, lambda k: SV(Item, S.get(src, pos + k)), Item)
+  ex.mutate(box, SV(U, U.mk('IterSrc', src, pos + m, fail)))
+
+  def on_exhaust(ex2):
+    # islice asks the source for one more item unless it already has n: at the failing position the source raises
+    if ex2.decide(z3.And(m < n, fail <= S.len(src)), 'source-raises'):
+      raise RaiseEx(ExcVal(TypeTag('SourceError', (TypeTag('Exception'),)), []))
+  return IterView(m, lambda k: SV(Item, S.get(src, pos + k)), Item, on_exhaust=on_exhaust)
 
 
 PFB = {
@@ -197,34 +209,40 @@ PFB = {
   'jax.tree_util.tree_map': Handler('jax.tree_util.tree_map', lambda ex, a, kw: ex.call_value(put, [a[1]], {}), 'tree_map(_prefetch, data) == put(data)'),
 }
 
+STOP = '(old(iterator.fail) if old(iterator.fail) <= len(iterator.src) else len(iterator.src))'
+DELIVERED = [
+  # exactly the source items before the failing position (all remaining ones if the source never fails), in order, each once
+  f'len(_out) == {STOP} - old(iterator.pos)',
+  'forall(Int, lambda i: implies(0 <= i and i < len(_out), _out[i] == put(iterator.src[old(iterator.pos) + i])))',
+]
 prefetch = function(
   F + '::prefetch_to_device', params=[('iterator', IterSrc), ('size', INT), ('devices', Devices)],
   assigns=('iterator',),
-  requires=['size >= 1', '0 <= iterator.pos and iterator.pos <= len(iterator.src)'],
-  ensures=[
-    # exactly the remaining source items, in order, each once; then the source is exhausted
-    'iterator.pos == len(iterator.src)',
-    'len(_out) == len(iterator.src) - old(iterator.pos)',
-    'forall(Int, lambda i: implies(0 <= i and i < len(_out), _out[i] == put(iterator.src[old(iterator.pos) + i])))',
-  ],
+  requires=['size >= 1', '0 <= iterator.pos and iterator.pos <= len(iterator.src)', 'iterator.pos <= iterator.fail'],
+  # an exception of the source reaches the consumer - AFTER the items that preceded it
+  raises={'SourceError': 'iterator.fail <= len(iterator.src)'},
+  ensures=['iterator.pos == len(iterator.src)'] + DELIVERED,
   invariants={
     0: [  # for data in islice(...): queue grows by the transferred items, in order
       'len(queue) == len(_pre_queue) + _k',
       'forall(Int, lambda i: implies(0 <= i and i < len(_pre_queue), queue[i] == _pre_queue[i]))',
       'forall(Int, lambda i: implies(0 <= i and i < _k, queue[len(_pre_queue) + i] == put(_at(i))))',
     ],
-    1: [  # while queue: yielded ++ queue == put(src[pos0:pos])
-      'iterator.src == old(iterator.src)',
-      'old(iterator.pos) <= iterator.pos and iterator.pos <= len(iterator.src)',
+    1: [  # while queue: yielded ++ queue == put(src[pos0:pos]); a held-back error means the source is at its failing position
+      'iterator.src == old(iterator.src) and iterator.fail == old(iterator.fail)',
+      f'old(iterator.pos) <= iterator.pos and iterator.pos <= {STOP}',
       'len(_out) + len(queue) == iterator.pos - old(iterator.pos)',
       'forall(Int, lambda i: implies(0 <= i and i < len(_out), _out[i] == put(iterator.src[old(iterator.pos) + i])))',
       'forall(Int, lambda i: implies(0 <= i and i < len(queue), queue[i] == put(iterator.src[old(iterator.pos) + len(_out) + i])))',
       'len(queue) <= size',
-      'len(queue) == size or iterator.pos == len(iterator.src)',
+      f'implies(error is not None, iterator.pos == {STOP} and old(iterator.fail) <= len(iterator.src))',
+      f'implies(error is None, len(queue) == size or (iterator.pos == {STOP} and old(iterator.fail) > len(iterator.src)))',
     ]},
-  bindings=PFB, props=('C20',))
+  bindings=dict(PFB, Exception=TypeTag('Exception')), props=('C20',))
+prefetch.ensures_on_raise = {'SourceError': DELIVERED}
+prefetch.locals = {'error': SourceErr, 'e': SourceErr}
 prefetch.yields = DevItem
-prefetch.locals = {'queue': SeqOf(DevItem)}
+prefetch.locals['queue'] = SeqOf(DevItem)
 
 # ---- axes_scan: transpose_to_front / transpose_from_front applied to a whole (sub)tree ----------------------------------
 # every leaf of xs is transposed with ITS OWN rank: a negative axis is resolved per leaf
